@@ -1,3 +1,4 @@
+-- properties: C04 C11
 /-
   C04 / C11 — the MATLAB 4 container (stand-alone L1 model SfModel/Mat4.lean; helpers SfProofs/Mat4Image.lean,
   SfProofs/Small2Session.lean).  Property theorems only.
